@@ -103,13 +103,16 @@ class WarmStart(Spec):
     properties = ("C08", "C05")
     inline = ()
 
-    def __init__(self):
-        self.externals = {"netCDF4.Dataset": lambda interp, fname, *a, **k: RFile()}
+    def __init__(self, with_pdim=True):
+        self.with_pdim = with_pdim
+        if not with_pdim:
+            self.name = "warm_start.warm_start[file without particle variables]"
+        self.externals = {"netCDF4.Dataset": lambda interp, fname, *a, **k: RFile(with_pdim=with_pdim)}
 
     def inputs(self, cx):
-        st = make_state(cx, z3.Int("n_old"), extra_instance=EXTRA_I, extra_particle=EXTRA_P)
+        st = make_state(cx, z3.Int("n_old"), extra_instance=EXTRA_I, extra_particle=EXTRA_P if self.with_pdim else ())
         cx.assume(z3.And(nrec >= 1, pdim >= 0))
-        return Args(warm_start_file="restart.nc", warm_start_variables=["xi", "xp"], state=st)
+        return Args(warm_start_file="restart.nc", warm_start_variables=["xi", "xp"] if self.with_pdim else ["xi"], state=st)
 
     def requires(self, cx, a):
         # the file is what Output wrote (C06): cumulative counts, pids of a record strictly increasing and below the
@@ -119,7 +122,15 @@ class WarmStart(Spec):
         cx.univ.append(UnivFact(1, lambda k: z3.Implies(z3.And(k >= 0, k < cum_f(nrec)), z3.And(pid(k) >= 0, pid(k) < pdim)), decls=[pid]))
         return [("file written by Output: cum(0) == 0, at least one instance on file", z3.And(cum_f(0) == 0, cum_f(nrec) >= 1, cum_f(nrec - 1) >= 0, cum_f(nrec) == cum_f(nrec - 1) + cnt_f(nrec - 1), cnt_f(nrec - 1) >= 0))]
 
+    def ensures(self, cx, a, result):
+        npid = a.state.attrs["npid"]
+        pid = inst_f["pid"]
+        k = z3.Int("k_inst")
+        return [("C08/C05: after the restart no pid that occurs anywhere in the restart file can be handed out again (npid > every pid on file)", z3.Implies(z3.And(k >= 0, k < cum_f(nrec)), V.to_z3(npid) > V.app(pid, k)))]
+
     def model(self, cx, a):
+        if not self.with_pdim:
+            return NotImplemented
         st = a.state
         v = st.attrs["variables"]
         start, c = cum_f(nrec - 1), cnt_f(nrec - 1)
